@@ -95,6 +95,20 @@ func gen(tier string) []proto.RTItem {
 			items = append(items, proto.RTItem{Scn: r, Class: fmt.Sprintf("RunTraceroute/%s/target-form/%s", k.proto, t)})
 		}
 	}
+	// (D') the port parameter next to a target literal that is bracketed but carries no port of its own
+	for _, k := range []kind{{"udp", "", "[203.0.113.77]"}, {"tcp", "syn", "[203.0.113.77]"}, {"udp", "", "[2001:db8::77]"}} {
+		for _, p := range portVals {
+			for _, http := range []bool{false, true} {
+				r := req(k, 1, 3, p, 3)
+				r.UseListenerPort = false
+				r.HTTP = http
+				if http && p == 0 {
+					continue
+				}
+				items = append(items, proto.RTItem{Scn: r, Class: fmt.Sprintf("%s/%s/bracketed-target-%s/port=%d", map[bool]string{false: "RunTraceroute", true: "http"}[http], k.proto, k.target, p)})
+			}
+		}
+	}
 	// (E) the HTTP API (MinTTL fixed at 1)
 	for _, k := range ks[:4] {
 		for _, max := range ttlVals {
